@@ -52,7 +52,7 @@ Proof. reflexivity. Qed.
 Lemma hem_set_valid r f v : hem_valid r = true -> hem_valid (fst (hem_set r f v)) = true.
 Proof.
   intro H. unfold hem_set. destruct (hem_guard f v) eqn:E; [|exact H].
-  unfold hem_valid in *. split_valid H. destruct f; simpl in *; close_valid.
+  unfold hem_valid in *. split_valid H. destruct f; cbn [hem_guard hem_write h_sigma h_p h_eta1 h_eta2 h_intensity h_xi] in *; close_valid.
 Qed.
 Lemma hem_run_valid ops : forall r, hem_valid r = true -> hem_valid (hem_run ops r) = true.
 Proof. induction ops as [|op ops IH]; intros r H; simpl; [exact H|]. apply IH, hem_set_valid, H. Qed.
@@ -85,7 +85,7 @@ Proof. reflexivity. Qed.
 Lemma merton_set_valid r f v : merton_valid r = true -> merton_valid (fst (merton_set r f v)) = true.
 Proof.
   intro H. unfold merton_set. destruct (merton_guard f v) eqn:E; [|exact H].
-  unfold merton_valid in *. split_valid H. destruct f; simpl in *; close_valid.
+  unfold merton_valid in *. split_valid H. destruct f; cbn [merton_guard merton_write m_sigma m_mu_j m_sigma_j m_intensity] in *; close_valid.
 Qed.
 Lemma merton_run_valid ops : forall r, merton_valid r = true -> merton_valid (merton_run ops r) = true.
 Proof. induction ops as [|op ops IH]; intros r H; simpl; [exact H|]. apply IH, merton_set_valid, H. Qed.
@@ -124,7 +124,7 @@ Proof. reflexivity. Qed.
 Lemma vg_set_valid r f v : vg_valid r = true -> vg_valid (fst (vg_set r f v)) = true.
 Proof.
   intro H. unfold vg_set. destruct (vg_guard f v) eqn:E; [|exact H].
-  unfold vg_valid in *. split_valid H. destruct f; simpl in *; close_valid.
+  unfold vg_valid in *. split_valid H. destruct f; cbn [vg_guard vg_write v_sigma v_nu v_theta v_c v_lambda_p v_lambda_m] in *; close_valid.
 Qed.
 Lemma vg_run_valid ops : forall r, vg_valid r = true -> vg_valid (vg_run ops r) = true.
 Proof. induction ops as [|op ops IH]; intros r H; simpl; [exact H|]. apply IH, vg_set_valid, H. Qed.
@@ -163,7 +163,7 @@ Proof. reflexivity. Qed.
 Lemma cgmy_set_valid r f v : cgmy_valid r = true -> cgmy_valid (fst (cgmy_set r f v)) = true.
 Proof.
   intro H. unfold cgmy_set. destruct (cgmy_guard f v) eqn:E; [|exact H].
-  unfold cgmy_valid in *. split_valid H. destruct f; simpl in *; close_valid.
+  unfold cgmy_valid in *. split_valid H. destruct f; cbn [cgmy_guard cgmy_write c_c c_g c_m c_y c_CGammamY c_MpowerY c_GpowerY] in *; close_valid.
 Qed.
 Lemma cgmy_run_valid ops : forall r, cgmy_valid r = true -> cgmy_valid (cgmy_run ops r) = true.
 Proof. induction ops as [|op ops IH]; intros r H; simpl; [exact H|]. apply IH, cgmy_set_valid, H. Qed.
@@ -202,7 +202,7 @@ Proof. reflexivity. Qed.
 Lemma bs_set_valid r f v : bs_valid r = true -> bs_valid (fst (bs_set r f v)) = true.
 Proof.
   intro H. unfold bs_set. destruct (bs_guard f v) eqn:E; [|exact H].
-  unfold bs_valid in *. split_valid H. destruct f; simpl in *; close_valid.
+  unfold bs_valid in *. split_valid H. destruct f; cbn [bs_guard bs_write b_sigma b_variance] in *; close_valid.
 Qed.
 Lemma bs_run_valid ops : forall r, bs_valid r = true -> bs_valid (bs_run ops r) = true.
 Proof. induction ops as [|op ops IH]; intros r H; simpl; [exact H|]. apply IH, bs_set_valid, H. Qed.
@@ -286,14 +286,14 @@ End P.
 Section CalibSpec.
   Variable Rec Field : Type.
   Variable set : Rec -> Field -> Q -> Rec * bool.
-  Variable initialisation : Rec -> Rec.
+  Variable initialisation : Rec -> outcome Rec.
   Variable price : Rec -> Q.
   Variable dflt : Rec.
   Notation load := (load Rec dflt).
   Notation store := (store Rec).
   Notation deepcopy := (deepcopy Rec dflt).
+  Notation assign_init := (assign_init Rec Field set initialisation).
   Notation run_trials := (run_trials Rec Field set initialisation price dflt).
-  Notation calibration_fun := (calibration_fun Rec Field set initialisation price dflt).
   Notation calibrate := (calibrate_model_parameter Rec Field set initialisation price dflt).
   Notation run_default := (run_default_calibration Rec Field set initialisation price dflt).
 
@@ -317,18 +317,30 @@ Section CalibSpec.
   Proof.
     induction xs as [|x xs IH]; intros st st' H; simpl in H.
     - inversion H; subst. auto.
-    - unfold Params.calibration_fun in H. destruct (set (load st q) f x) as [r' ok]. destruct ok; [|discriminate].
+    - unfold Params.calibration_fun in H. destruct (assign_init (load st q) f x) as [r''|]; [|discriminate].
       apply IH in H. destruct H as [HL HF]. rewrite length_store in HL. split; [exact HL|].
       intros p Hp. rewrite HF by exact Hp. apply load_store_other, Hp.
   Qed.
-  (* a trial value refused by the setter aborts the calibration (Python: ValueError out of brentq) *)
-  Lemma run_trials_rejected q f m x : (forall r, snd (set r f x) = false) ->
+  (* a trial value on which the assignment or the re-initialisation raises aborts the calibration *)
+  Lemma run_trials_rejected q f m x : (forall r, assign_init r f x = None) ->
     forall xs st, In x xs -> run_trials q f m st xs = None.
   Proof.
     intros Hrej xs. induction xs as [|y xs IH]; intros st Hin; [destruct Hin|]. simpl.
-    unfold Params.calibration_fun. destruct (set (load st q) f y) as [r' ok] eqn:E. destruct ok; [|reflexivity].
-    destruct Hin as [-> | Hin]; [|apply IH, Hin].
-    specialize (Hrej (load st q)). rewrite E in Hrej. discriminate.
+    unfold Params.calibration_fun. destruct (assign_init (load st q) f y) as [r''|] eqn:E; [|reflexivity].
+    destruct Hin as [-> | Hin]; [|apply IH, Hin]. rewrite Hrej in E. discriminate.
+  Qed.
+  (* MUST SUCCEED: if every trial value is accepted and re-initialisable on the records that can occur (invariant Inv) *)
+  Lemma run_trials_succeeds (Inv : Rec -> Prop) q f m xs :
+    (forall y r, In y xs -> Inv r -> exists r', assign_init r f y = Some r' /\ Inv r') ->
+    forall st, (q < length st)%nat -> Inv (load st q) -> exists st', run_trials q f m st xs = Some st' /\ Inv (load st' q) /\ length st' = length st.
+  Proof.
+    induction xs as [|x xs IH]; intros Hacc st Hq HI; simpl.
+    - exists st. auto.
+    - unfold Params.calibration_fun. destruct (Hacc x (load st q) (or_introl eq_refl) HI) as (r' & E & HI'). rewrite E.
+      destruct (IH (fun y r Hy => Hacc y r (or_intror Hy)) (store st q r')) as (st' & A & B & C).
+      + rewrite length_store. exact Hq.
+      + rewrite load_store_same by exact Hq. exact HI'.
+      + exists st'. rewrite length_store in C. auto.
   Qed.
 
   (* calibrate_model_parameter (with the deep copy): every object that existed before is untouched, whatever brentq tried *)
@@ -339,34 +351,43 @@ Section CalibSpec.
     rewrite app_length in HL. simpl in HL. split; [lia|].
     intros p' Hp'. rewrite HF by lia. apply load_app_old, Hp'.
   Qed.
-  Lemma calibrate_rejected h p f m x xs alias : (forall r, snd (set r f x) = false) -> In x xs -> calibrate alias h p f m xs = None.
+  Lemma calibrate_rejected h p f m x xs alias : (forall r, assign_init r f x = None) -> In x xs -> calibrate alias h p f m xs = None.
   Proof.
     intros Hrej Hin. unfold Params.calibrate_model_parameter. destruct alias; simpl; apply (run_trials_rejected _ _ _ x); assumption.
   Qed.
 
-  (* run_default_calibration: input untouched, the returned parameters are a NEW object holding
-     initialisation(input with f := x); a refused x is an error *)
   Lemma run_default_spec h p f m xs x h' q : (p < length h)%nat -> run_default h p f m xs x = Some (h', q) ->
     (forall p', (p' < length h)%nat -> load h' p' = load h p')
     /\ (length h <= q)%nat
-    /\ snd (set (load h p) f x) = true
-    /\ load h' q = initialisation (fst (set (load h p) f x)).
+    /\ assign_init (load h p) f x = Some (load h' q).
   Proof.
     intros Hp H. unfold Params.run_default_calibration in H.
     destruct (calibrate false h p f m xs) as [h1|] eqn:E1; [|discriminate].
     apply calibrate_input_untouched in E1. destruct E1 as [L1 F1].
     unfold Params.deepcopy in H. rewrite load_app_new in H. rewrite (F1 p Hp) in H.
-    destruct (set (load h p) f x) as [r' ok] eqn:E2. destruct ok; [|discriminate]. inversion H; subst. clear H.
+    destruct (assign_init (load h p) f x) as [r''|] eqn:E2; [|discriminate]. inversion H; subst. clear H.
     repeat split.
     - intros p' Hp'. rewrite load_store_other by lia. rewrite load_app_old by lia. apply F1, Hp'.
     - lia.
-    - simpl. apply load_store_same. rewrite app_length. simpl. lia.
+    - f_equal. symmetry. apply load_store_same. rewrite app_length. simpl. lia.
   Qed.
-  Lemma run_default_rejected h p f m xs x : (forall r, snd (set r f x) = false) -> run_default h p f m xs x = None.
+  Lemma run_default_rejected h p f m xs x : (forall r, assign_init r f x = None) -> run_default h p f m xs x = None.
   Proof.
     intro Hrej. unfold Params.run_default_calibration. destruct (calibrate false h p f m xs) as [h1|]; [|reflexivity].
-    unfold Params.deepcopy. specialize (Hrej (load (h1 ++ [load h1 p]) (length h1))).
-    destruct (set _ f x) as [r' ok]. simpl in Hrej. subst. reflexivity.
+    unfold Params.deepcopy. rewrite Hrej. reflexivity.
+  Qed.
+  (* MUST SUCCEED *)
+  Lemma run_default_succeeds (Inv : Rec -> Prop) h p f m xs x : (p < length h)%nat -> Inv (load h p) ->
+    (forall y r, In y (x :: xs) -> Inv r -> exists r', assign_init r f y = Some r' /\ Inv r') ->
+    exists h' q, run_default h p f m xs x = Some (h', q).
+  Proof.
+    intros Hp HI Hacc. unfold Params.run_default_calibration, Params.calibrate_model_parameter, Params.deepcopy.
+    destruct (run_trials_succeeds Inv (length h) f m xs (fun y r Hy => Hacc y r (or_intror Hy)) (h ++ [load h p])) as (h1 & E & _ & L).
+    - rewrite app_length. simpl. lia.
+    - rewrite load_app_new. exact HI.
+    - rewrite E. rewrite load_app_new.
+      pose proof (run_trials_frame _ _ _ _ _ _ E) as [_ F]. rewrite (F p) by lia. rewrite load_app_old by exact Hp.
+      destruct (Hacc x (load h p) (or_introl eq_refl) HI) as (r' & E2 & _). rewrite E2. eauto.
   Qed.
 End CalibSpec.
 
@@ -393,6 +414,94 @@ Proof.
   - destruct (Qlt_le_dec u1 0) as [N1|N1]; destruct (Qlt_le_dec u2 0) as [N2|N2]; try lra.
     exfalso. assert (0 < u1 * u2) by nra. lra.
 Qed.
+
+(* ------------------------------------------------------------------ assignment + checked re-initialisation per class *)
+Section Assign.
+Variable fsqrt : Q -> Q.
+Variable fgamma : Q -> Q.
+Variable fpow : Q -> Q -> Q.
+(* the objective at a trial value does not depend on the values tried before on the same copy *)
+Lemma hem_assign_absorbs r f x y r1 :
+  assign_init HemRec HemField hem_set hem_initialisation_checked r f y = Some r1 ->
+  assign_init HemRec HemField hem_set hem_initialisation_checked r1 f x = assign_init HemRec HemField hem_set hem_initialisation_checked r f x.
+Proof.
+  unfold assign_init, hem_set, hem_initialisation_checked. destruct (hem_guard f y) eqn:Gy; [|discriminate].
+  destruct (hem_defined (hem_write f y r)) eqn:D; [|discriminate]. intro H; inversion H; subst; clear H.
+  destruct (hem_guard f x); [|reflexivity]. destruct f; reflexivity.
+Qed.
+Lemma merton_assign_absorbs r f x y r1 :
+  assign_init MertonRec MertonField merton_set merton_initialisation_checked r f y = Some r1 ->
+  assign_init MertonRec MertonField merton_set merton_initialisation_checked r1 f x = assign_init MertonRec MertonField merton_set merton_initialisation_checked r f x.
+Proof.
+  unfold assign_init, merton_set, merton_initialisation_checked. destruct (merton_guard f y) eqn:Gy; [|discriminate].
+  simpl. intro H; inversion H; subst; clear H. destruct (merton_guard f x); [|reflexivity]. destruct f; reflexivity.
+Qed.
+Lemma vg_assign_absorbs r f x y r1 :
+  assign_init VgRec VgField vg_set (vg_initialisation_checked fsqrt) r f y = Some r1 ->
+  assign_init VgRec VgField vg_set (vg_initialisation_checked fsqrt) r1 f x = assign_init VgRec VgField vg_set (vg_initialisation_checked fsqrt) r f x.
+Proof.
+  unfold assign_init, vg_set, vg_initialisation_checked. destruct (vg_guard f y) eqn:Gy; [|discriminate].
+  destruct (vg_defined (vg_write f y r)) eqn:D; [|discriminate]. intro H; inversion H; subst; clear H.
+  destruct (vg_guard f x); [|reflexivity]. destruct f; reflexivity.
+Qed.
+Lemma cgmy_assign_absorbs r f x y r1 :
+  assign_init CgmyRec CgmyField cgmy_set (cgmy_initialisation_checked fgamma fpow) r f y = Some r1 ->
+  assign_init CgmyRec CgmyField cgmy_set (cgmy_initialisation_checked fgamma fpow) r1 f x
+  = assign_init CgmyRec CgmyField cgmy_set (cgmy_initialisation_checked fgamma fpow) r f x.
+Proof.
+  unfold assign_init, cgmy_set, cgmy_initialisation_checked. destruct (cgmy_guard f y) eqn:Gy; [|discriminate].
+  simpl. intro H; inversion H; subst; clear H. destruct (cgmy_guard f x); [|reflexivity]. destruct f; reflexivity.
+Qed.
+Lemma bs_assign_absorbs r f x y r1 :
+  assign_init BsRec BsField bs_set bs_initialisation_checked r f y = Some r1 ->
+  assign_init BsRec BsField bs_set bs_initialisation_checked r1 f x = assign_init BsRec BsField bs_set bs_initialisation_checked r f x.
+Proof.
+  unfold assign_init, bs_set, bs_initialisation_checked. destruct (bs_guard f y) eqn:Gy; [|discriminate].
+  simpl. intro H; inversion H; subst; clear H. destruct (bs_guard f x); [|reflexivity]. destruct f; reflexivity.
+Qed.
+(* when exactly the assignment + re-initialisation succeeds, and what it returns *)
+Lemma hem_assign_spec r f x : assign_init HemRec HemField hem_set hem_initialisation_checked r f x
+  = if hem_guard f x && hem_defined (hem_write f x r) then Some (hem_initialisation (hem_write f x r)) else None.
+Proof. unfold assign_init, hem_set, hem_initialisation_checked. destruct (hem_guard f x); simpl; [|reflexivity]. destruct (hem_defined _); reflexivity. Qed.
+Lemma vg_assign_spec r f x : assign_init VgRec VgField vg_set (vg_initialisation_checked fsqrt) r f x
+  = if vg_guard f x && vg_defined (vg_write f x r) then Some (vg_initialisation fsqrt (vg_write f x r)) else None.
+Proof. unfold assign_init, vg_set, vg_initialisation_checked. destruct (vg_guard f x); simpl; [|reflexivity]. destruct (vg_defined _); reflexivity. Qed.
+Lemma merton_assign_spec r f x : assign_init MertonRec MertonField merton_set merton_initialisation_checked r f x
+  = if merton_guard f x then Some (merton_write f x r) else None.
+Proof. unfold assign_init, merton_set, merton_initialisation_checked. destruct (merton_guard f x); reflexivity. Qed.
+Lemma cgmy_assign_spec r f x : assign_init CgmyRec CgmyField cgmy_set (cgmy_initialisation_checked fgamma fpow) r f x
+  = if cgmy_guard f x then Some (cgmy_initialisation fgamma fpow (cgmy_write f x r)) else None.
+Proof. unfold assign_init, cgmy_set, cgmy_initialisation_checked. destruct (cgmy_guard f x); reflexivity. Qed.
+Lemma bs_assign_spec r f x : assign_init BsRec BsField bs_set bs_initialisation_checked r f x
+  = if bs_guard f x then Some (bs_initialisation (bs_write f x r)) else None.
+Proof. unfold assign_init, bs_set, bs_initialisation_checked. destruct (bs_guard f x); reflexivity. Qed.
+
+(* MUST SUCCEED: the constructor builds an object exactly when every guard holds and no division by zero occurs *)
+Lemma construct_iff_all :
+  (forall sigma p eta1 eta2 intensity, let r := hem_build sigma p eta1 eta2 intensity in
+     (hem_construct sigma p eta1 eta2 intensity = Built r <-> hem_valid r = true /\ hem_defined r = true)
+     /\ (hem_construct sigma p eta1 eta2 intensity = RaisesValueError <-> hem_valid r = false)
+     /\ (hem_construct sigma p eta1 eta2 intensity = RaisesZeroDivisionError <-> hem_valid r = true /\ hem_defined r = false))
+  /\ (forall sigma mu_j sigma_j intensity, let r := merton_build sigma mu_j sigma_j intensity in
+     (merton_construct sigma mu_j sigma_j intensity = Built r <-> merton_valid r = true)
+     /\ (merton_construct sigma mu_j sigma_j intensity = RaisesValueError <-> merton_valid r = false))
+  /\ (forall sigma nu theta, let r := vg_build fsqrt sigma nu theta in
+     (vg_construct fsqrt sigma nu theta = Built r <-> vg_valid r = true /\ vg_defined r = true)
+     /\ (vg_construct fsqrt sigma nu theta = RaisesValueError <-> vg_valid r = false)
+     /\ (vg_construct fsqrt sigma nu theta = RaisesZeroDivisionError <-> vg_valid r = true /\ vg_defined r = false))
+  /\ (forall c g m y, let r := cgmy_build fgamma fpow c g m y in
+     (cgmy_construct fgamma fpow c g m y = Built r <-> cgmy_valid r = true)
+     /\ (cgmy_construct fgamma fpow c g m y = RaisesValueError <-> cgmy_valid r = false))
+  /\ (forall sigma, let r := bs_build sigma in
+     (bs_construct sigma = Built r <-> bs_valid r = true) /\ (bs_construct sigma = RaisesValueError <-> bs_valid r = false)).
+Proof.
+  repeat apply conj; intros; subst r;
+    unfold hem_construct, merton_construct, vg_construct, cgmy_construct, bs_construct, merton_defined, cgmy_defined, bs_defined; cbv zeta;
+    repeat match goal with |- context [if ?b then _ else _] => destruct b eqn:? end;
+    repeat split; intros; try discriminate; try congruence; try tauto;
+    repeat match goal with H : _ /\ _ |- _ => destruct H end; try discriminate; try congruence.
+Qed.
+End Assign.
 
 (* ------------------------------------------------------------------ statements as they appear in Properties/C20.v *)
 Lemma init_eq_reinit_all : forall (fsqrt fgamma : Q -> Q) (fpow : Q -> Q -> Q),
@@ -475,71 +584,84 @@ Proof.
   - exact bs_set_rejects. - exact bs_set_accepts. - exact bs_guard_spec.
 Qed.
 
-(* generic part: any record class with a setter, an initialisation and a price *)
-Lemma calibration_heap_all : forall (Rec Field : Type) (set : Rec -> Field -> Q -> Rec * bool) (initialisation : Rec -> Rec)
+(* generic part: any record class with a setter, a CHECKED initialisation and a price *)
+Lemma calibration_heap_all : forall (Rec Field : Type) (set : Rec -> Field -> Q -> Rec * bool) (initialisation : Rec -> outcome Rec)
     (price : Rec -> Q) (dflt : Rec) (h : list Rec) (p : nat) (f : Field) (market : Q) (xs : list Q) (x : Q),
   (p < length h)%nat ->
   (* calibrate_model_parameter leaves every pre-existing object as it was, whatever trial values the root finder used *)
   (forall h', calibrate_model_parameter Rec Field set initialisation price dflt false h p f market xs = Some h' ->
       forall p', (p' < length h)%nat -> load Rec dflt h' p' = load Rec dflt h p')
-  (* a trial value refused by the setter makes the whole calibration raise *)
-  /\ (forall alias y, (forall r, snd (set r f y) = false) -> In y xs ->
+  (* a trial value on which the setter or the re-initialisation raises makes the whole calibration raise *)
+  /\ (forall alias y, (forall r, assign_init Rec Field set initialisation r f y = None) -> In y xs ->
       calibrate_model_parameter Rec Field set initialisation price dflt alias h p f market xs = None)
-  /\ ((forall r, snd (set r f x) = false) -> run_default_calibration Rec Field set initialisation price dflt h p f market xs x = None)
-  (* run_default_calibration: input untouched; the result is a NEW object = initialisation(input with f := x) *)
+  /\ ((forall r, assign_init Rec Field set initialisation r f x = None) ->
+      run_default_calibration Rec Field set initialisation price dflt h p f market xs x = None)
+  (* MUST SUCCEED: if every trial value and x are assignable and re-initialisable on the records that can occur *)
+  /\ (forall Inv : Rec -> Prop, Inv (load Rec dflt h p) ->
+      (forall y r, In y (x :: xs) -> Inv r -> exists r', assign_init Rec Field set initialisation r f y = Some r' /\ Inv r') ->
+      exists h' q, run_default_calibration Rec Field set initialisation price dflt h p f market xs x = Some (h', q))
+  (* run_default_calibration: input untouched; the result is a NEW object = checked initialisation(input with f := x) *)
   /\ (forall h' q, run_default_calibration Rec Field set initialisation price dflt h p f market xs x = Some (h', q) ->
       (forall p', (p' < length h)%nat -> load Rec dflt h' p' = load Rec dflt h p')
       /\ (length h <= q)%nat
-      /\ snd (set (load Rec dflt h p) f x) = true
-      /\ load Rec dflt h' q = initialisation (fst (set (load Rec dflt h p) f x))
-      (* IF brentq kept its promise (bracket of width delta with a sign change) and the price is L-Lipschitz in the
-         calibrated parameter on [a,b], THEN x is in [a,b] and the returned model reprices within L*delta *)
-      /\ (forall a b delta L, 0 <= L ->
-            Lipschitz (fun y => price (initialisation (fst (set (load Rec dflt h p) f y)))) a b L ->
-            BrentSpec (objective Rec Field set initialisation price (load Rec dflt h p) f market) a b delta x ->
+      /\ assign_init Rec Field set initialisation (load Rec dflt h p) f x = Some (load Rec dflt h' q)
+      (* IF brentq kept its promise (bracket of width delta with a sign change of the objective g - market) and the price g
+         is L-Lipschitz in the calibrated parameter on [a,b], THEN x is in [a,b] and the returned model reprices within L*delta *)
+      /\ (forall (g : Q -> Q) a b delta L, 0 <= L ->
+            (forall y, a <= y /\ y <= b -> exists r', assign_init Rec Field set initialisation (load Rec dflt h p) f y = Some r' /\ price r' = g y) ->
+            Lipschitz g a b L -> BrentSpec (fun y => g y - market) a b delta x ->
             (a <= x /\ x <= b) /\ Qabs (price (load Rec dflt h' q) - market) <= L * delta)).
 Proof.
   intros Rec Field set initialisation price dflt h p f market xs x Hp. repeat apply conj.
   - intros h' H. eapply calibrate_input_untouched. exact H.
   - intros alias y Hrej Hin. eapply calibrate_rejected; eassumption.
   - apply run_default_rejected.
-  - intros h' q H. destruct (run_default_spec _ _ _ _ _ _ _ _ _ _ _ _ _ _ Hp H) as (A & B & C & D).
-    split; [exact A|]. split; [exact B|]. split; [exact C|]. split; [exact D|].
-    intros a b delta L HL Hlip Hb. rewrite D.
-    exact (brent_reprices (fun y => price (initialisation (fst (set (load Rec dflt h p) f y)))) market a b delta x L HL Hlip Hb).
+  - intros Inv HI Hacc. eapply run_default_succeeds; eassumption.
+  - intros h' q H. destruct (run_default_spec _ _ _ _ _ _ _ _ _ _ _ _ _ _ Hp H) as (A & B & C).
+    split; [exact A|]. split; [exact B|]. split; [exact C|].
+    intros g a b delta L HL Hg Hlip Hb.
+    destruct (brent_reprices g market a b delta x L HL Hlip Hb) as [Hx Hr]. split; [exact Hx|].
+    destruct (Hg x Hx) as (r' & E & Ep). rewrite C in E. inversion E; subst. rewrite Ep. exact Hr.
 Qed.
 
-(* class-specific part: the objective brentq sees on its working copy does not depend on the earlier trial values, and the
-   parameters of the returned model are what the constructor builds from the final values *)
+(* class-specific part: when assignment + re-initialisation succeeds and what it gives; the objective brentq sees on its working
+   copy does not depend on the earlier trial values; the parameters of the returned model are what the constructor builds *)
 Lemma calibration_classes_all : forall (fsqrt fgamma : Q -> Q) (fpow : Q -> Q -> Q),
-  (forall r f x y, hem_guard f x = true -> hem_guard f y = true ->
-     hem_initialisation (fst (hem_set (hem_initialisation (fst (hem_set r f y))) f x)) = hem_initialisation (fst (hem_set r f x)))
-  /\ (forall r f x, hem_valid r = true ->
-     hem_rebuild (fst (hem_set r f x)) = hem_initialisation_checked (fst (hem_set r f x)))
-  /\ (forall r f x y, merton_guard f x = true -> merton_guard f y = true ->
-     merton_initialisation (fst (merton_set (merton_initialisation (fst (merton_set r f y))) f x)) = merton_initialisation (fst (merton_set r f x)))
-  /\ (forall r f x, merton_valid r = true ->
-     merton_rebuild (fst (merton_set r f x)) = merton_initialisation_checked (fst (merton_set r f x)))
-  /\ (forall r f x y, vg_guard f x = true -> vg_guard f y = true ->
-     vg_initialisation fsqrt (fst (vg_set (vg_initialisation fsqrt (fst (vg_set r f y))) f x)) = vg_initialisation fsqrt (fst (vg_set r f x)))
-  /\ (forall r f x, vg_valid r = true ->
-     vg_rebuild fsqrt (fst (vg_set r f x)) = vg_initialisation_checked fsqrt (fst (vg_set r f x)))
-  /\ (forall r f x y, cgmy_guard f x = true -> cgmy_guard f y = true ->
-     cgmy_initialisation fgamma fpow (fst (cgmy_set (cgmy_initialisation fgamma fpow (fst (cgmy_set r f y))) f x))
-     = cgmy_initialisation fgamma fpow (fst (cgmy_set r f x)))
+  (forall r f x, assign_init HemRec HemField hem_set hem_initialisation_checked r f x
+       = if hem_guard f x && hem_defined (hem_write f x r) then Some (hem_initialisation (hem_write f x r)) else None)
+  /\ (forall r f x y r1, assign_init HemRec HemField hem_set hem_initialisation_checked r f y = Some r1 ->
+       assign_init HemRec HemField hem_set hem_initialisation_checked r1 f x = assign_init HemRec HemField hem_set hem_initialisation_checked r f x)
+  /\ (forall r f x, hem_valid r = true -> hem_rebuild (fst (hem_set r f x)) = hem_initialisation_checked (fst (hem_set r f x)))
+  /\ (forall r f x, assign_init MertonRec MertonField merton_set merton_initialisation_checked r f x
+       = if merton_guard f x then Some (merton_write f x r) else None)
+  /\ (forall r f x y r1, assign_init MertonRec MertonField merton_set merton_initialisation_checked r f y = Some r1 ->
+       assign_init MertonRec MertonField merton_set merton_initialisation_checked r1 f x
+       = assign_init MertonRec MertonField merton_set merton_initialisation_checked r f x)
+  /\ (forall r f x, merton_valid r = true -> merton_rebuild (fst (merton_set r f x)) = merton_initialisation_checked (fst (merton_set r f x)))
+  /\ (forall r f x, assign_init VgRec VgField vg_set (vg_initialisation_checked fsqrt) r f x
+       = if vg_guard f x && vg_defined (vg_write f x r) then Some (vg_initialisation fsqrt (vg_write f x r)) else None)
+  /\ (forall r f x y r1, assign_init VgRec VgField vg_set (vg_initialisation_checked fsqrt) r f y = Some r1 ->
+       assign_init VgRec VgField vg_set (vg_initialisation_checked fsqrt) r1 f x = assign_init VgRec VgField vg_set (vg_initialisation_checked fsqrt) r f x)
+  /\ (forall r f x, vg_valid r = true -> vg_rebuild fsqrt (fst (vg_set r f x)) = vg_initialisation_checked fsqrt (fst (vg_set r f x)))
+  /\ (forall r f x, assign_init CgmyRec CgmyField cgmy_set (cgmy_initialisation_checked fgamma fpow) r f x
+       = if cgmy_guard f x then Some (cgmy_initialisation fgamma fpow (cgmy_write f x r)) else None)
+  /\ (forall r f x y r1, assign_init CgmyRec CgmyField cgmy_set (cgmy_initialisation_checked fgamma fpow) r f y = Some r1 ->
+       assign_init CgmyRec CgmyField cgmy_set (cgmy_initialisation_checked fgamma fpow) r1 f x
+       = assign_init CgmyRec CgmyField cgmy_set (cgmy_initialisation_checked fgamma fpow) r f x)
   /\ (forall r f x, cgmy_valid r = true ->
-     cgmy_rebuild fgamma fpow (fst (cgmy_set r f x)) = cgmy_initialisation_checked fgamma fpow (fst (cgmy_set r f x)))
-  /\ (forall r f x y, bs_guard f x = true -> bs_guard f y = true ->
-     bs_initialisation (fst (bs_set (bs_initialisation (fst (bs_set r f y))) f x)) = bs_initialisation (fst (bs_set r f x)))
-  /\ (forall r f x, bs_valid r = true ->
-     bs_rebuild (fst (bs_set r f x)) = bs_initialisation_checked (fst (bs_set r f x))).
+       cgmy_rebuild fgamma fpow (fst (cgmy_set r f x)) = cgmy_initialisation_checked fgamma fpow (fst (cgmy_set r f x)))
+  /\ (forall r f x, assign_init BsRec BsField bs_set bs_initialisation_checked r f x
+       = if bs_guard f x then Some (bs_initialisation (bs_write f x r)) else None)
+  /\ (forall r f x y r1, assign_init BsRec BsField bs_set bs_initialisation_checked r f y = Some r1 ->
+       assign_init BsRec BsField bs_set bs_initialisation_checked r1 f x = assign_init BsRec BsField bs_set bs_initialisation_checked r f x)
+  /\ (forall r f x, bs_valid r = true -> bs_rebuild (fst (bs_set r f x)) = bs_initialisation_checked (fst (bs_set r f x))).
 Proof.
   intros. repeat apply conj.
-  - exact hem_trial_absorbs. - intros r f x H. exact (hem_sync [(f, x)] r H).
-  - exact merton_trial_absorbs. - intros r f x H. exact (merton_sync [(f, x)] r H).
-  - exact (vg_trial_absorbs fsqrt). - intros r f x H. exact (vg_sync fsqrt [(f, x)] r H).
-  - exact (cgmy_trial_absorbs fgamma fpow). - intros r f x H. exact (cgmy_sync fgamma fpow [(f, x)] r H).
-  - exact bs_trial_absorbs. - intros r f x H. exact (bs_sync [(f, x)] r H).
+  - exact hem_assign_spec. - exact hem_assign_absorbs. - intros r f x H. exact (hem_sync [(f, x)] r H).
+  - exact merton_assign_spec. - exact merton_assign_absorbs. - intros r f x H. exact (merton_sync [(f, x)] r H).
+  - exact (vg_assign_spec fsqrt). - exact (vg_assign_absorbs fsqrt). - intros r f x H. exact (vg_sync fsqrt [(f, x)] r H).
+  - exact (cgmy_assign_spec fgamma fpow). - exact (cgmy_assign_absorbs fgamma fpow). - intros r f x H. exact (cgmy_sync fgamma fpow [(f, x)] r H).
+  - exact bs_assign_spec. - exact bs_assign_absorbs. - intros r f x H. exact (bs_sync [(f, x)] r H).
 Qed.
 
 (* non-vacuity + the variant without the deep copy DOES modify the input *)
@@ -551,11 +673,12 @@ Lemma nonvacuous_c20 :
       /\ Qeq_bool (h_xi (hem_initialisation r)) ((5#9) + (25#52) - 1) = true
       /\ hem_rebuild r = Built (hem_initialisation r)
       (* calibration on a one-object heap: with the deep copy the input survives two trials, without it it does not *)
-      /\ (match calibrate_model_parameter HemRec HemField hem_set hem_initialisation h_xi r0 false [r0] 0 HSigma 0 [1#2; 1#4] with
+      /\ (match calibrate_model_parameter HemRec HemField hem_set hem_initialisation_checked h_xi r0 false [r0] 0 HSigma 0 [1#2; 1#4] with
           | Some h' => Qeq_bool (h_sigma (load HemRec r0 h' 0)) (1#20) && Qeq_bool (h_sigma (load HemRec r0 h' 1)) (1#4) | None => false end = true)
-      /\ (match calibrate_model_parameter HemRec HemField hem_set hem_initialisation h_xi r0 true [r0] 0 HSigma 0 [1#2; 1#4] with
+      /\ (match calibrate_model_parameter HemRec HemField hem_set hem_initialisation_checked h_xi r0 true [r0] 0 HSigma 0 [1#2; 1#4] with
           | Some h' => Qeq_bool (h_sigma (load HemRec r0 h' 0)) (1#4) | None => false end = true)
-      /\ calibrate_model_parameter HemRec HemField hem_set hem_initialisation h_xi r0 false [r0] 0 HSigma 0 [1#2; -(1#4)] = None
+      /\ calibrate_model_parameter HemRec HemField hem_set hem_initialisation_checked h_xi r0 false [r0] 0 HSigma 0 [1#2; -(1#4)] = None
+      /\ calibrate_model_parameter HemRec HemField hem_set hem_initialisation_checked h_xi r0 false [r0] 0 HEta1 0 [2; 1] = None
   | _ => False
   end
   /\ hem_construct (1#20) (-1) 20 25 3 = RaisesValueError
